@@ -57,21 +57,31 @@ def metaSplit (lines : List Str) : MetaDict × List Str :=
   | [] => ([], [])
   | l :: rest => if beginRe l then metaLoop rest none [] else metaLoop (l :: rest) none []
 
-/-- the `len(self.doc_list) == 1 and ":" in self.doc_list[0]` heuristic of `read_metadata` -/
-def readMetaFix (fields : List Str) (doc : List Str) : List Str :=
+/-- the `len(self.doc_list) == 1` test of `read_metadata`.  `tb = false`: as the code is.
+    `tb = true`: with fixes/C03-oneline-rule-trailing-blank.diff applied, where empty doc lines at
+    the end (the reader emits one for a blank or plain-comment line that follows a doc comment)
+    do not count (finding C03-oneline-text-with-colon-lost-before-blank-line). -/
+def isOneLine (tb : Bool) : List Str → Bool
+  | [] => false
+  | [_] => true
+  | _ :: r :: rest => tb && (r :: rest).all isBlank
+
+/-- the `len(self.doc_list) == 1 and ":" in self.doc_list[0]` heuristic of `read_metadata`:
+    the key test is `words.lower() in field_names` (case-insensitive, dataclass fields only) -/
+def readMetaFix (tb : Bool) (fields : List Str) (doc : List Str) : List Str :=
   match doc with
-  | [l] =>
-    if l.contains ':' then
+  | [] => doc
+  | l :: _ =>
+    if isOneLine tb doc && l.contains ':' then
       let w := strip (l.takeWhile (· != ':'))
       if fields.contains (lower w) then doc else [] :: doc
     else doc
-  | _ => doc
 
 /-- `read_metadata` on a non-empty doc list: (md, remaining doc_list) -/
-def readMetadata (fields : List Str) (doc : List Str) : MetaDict × List Str :=
+def readMetadata (tb : Bool) (fields : List Str) (doc : List Str) : MetaDict × List Str :=
   match doc with
   | [] => ([], [])
-  | _ => metaSplit (readMetaFix fields doc)
+  | _ => metaSplit (readMetaFix tb fields doc)
 
 /-! ### textwrap.dedent on a list of lines (the text is `"\n".join(lines)`) -/
 
